@@ -7,8 +7,6 @@ set_option linter.unusedSimpArgs false
 set_option linter.unusedVariables false
 namespace Kap.C07
 
-@[simp] theorem closeIn_fwdDead (c : Nd) : (closeIn c).fwdDead = c.fwdDead := by unfold closeIn; split <;> rfl
-
 theorem nodeStep_inAborted_mono {env a nd child r} (h : nodeStep env a nd child = some r) (hd : nd.inAborted = true) : r.nd.inAborted = true := by
   nstep h <;> simp_all
 
@@ -32,16 +30,16 @@ theorem child_D {nd c c' : Nd} {rdone : Bool}
       (c' = closeIn c ∧ rdone = true))
     (hp : DPair nd c) (hc : DNode c) :
     DNode c' ∧ (rdone = true → c'.inClosed = true ∨ c'.inAborted = true) ∧ (c'.inClosed = true → rdone = true) := by
-  obtain ⟨h1, ab, fa, dn, fh, al, ah, ad, as, nh, ih, nl, nu, fd⟩ := hc
+  obtain ⟨h1, ab, fa, dn, fh, al, ah, ad, as, nh, ih, nl, nu, fd, bd⟩ := hc
   unfold DPair at hp
   rcases he with ⟨rfl, e⟩ | ⟨rfl, e1, e2⟩ | ⟨rfl, e⟩
-  · subst e; exact ⟨⟨h1, ab, fa, dn, fh, al, ah, ad, as, nh, ih, nl, nu, fd⟩, hp.1, hp.2⟩
+  · subst e; exact ⟨⟨h1, ab, fa, dn, fh, al, ah, ad, as, nh, ih, nl, nu, fd, bd⟩, hp.1, hp.2⟩
   · have hncl : c.inClosed = false := by
       cases hcl : c.inClosed with
       | false => rfl
       | true => have := hp.2 hcl; simp_all
-    refine ⟨⟨?_, ?_, ?_, ?_, ?_, ?_, ?_, ?_, ?_, ?_, ?_, ?_, ?_, ?_⟩, ?_, ?_⟩ <;> simp_all <;> (try grind)
-  · refine ⟨⟨?_, ?_, ?_, ?_, ?_, ?_, ?_, ?_, ?_, ?_, ?_, ?_, ?_, ?_⟩, ?_, ?_⟩ <;> simp_all [closeIn_inClosed] <;> (try grind)
+    refine ⟨⟨?_, ?_, ?_, ?_, ?_, ?_, ?_, ?_, ?_, ?_, ?_, ?_, ?_, ?_, ?_⟩, ?_, ?_⟩ <;> simp_all <;> (try grind)
+  · refine ⟨⟨?_, ?_, ?_, ?_, ?_, ?_, ?_, ?_, ?_, ?_, ?_, ?_, ?_, ?_, ?_⟩, ?_, ?_⟩ <;> simp_all [closeIn_inClosed] <;> (try grind)
 
 theorem ChildEff'.facts {c c' : Nd} {cap : Nat} {nddone rdone : Bool}
     (he : (c' = c ∧ rdone = nddone) ∨ (c' = { c with inq := c.inq + 1, ent := c.ent + 1 } ∧ nddone = false ∧ rdone = false ∧ c.inq < cap) ∨
@@ -317,7 +315,7 @@ theorem dinv_phase {s s' : State} (hd : DInv s) (hn : s'.nodes = s.nodes)
   · intro j x hfl'; exact absurd hfl' (hfl j)
 
 theorem DNode.closeIn {nd} (h : DNode nd) : DNode (closeIn nd) := by
-  obtain ⟨h1, ab, fa, dn, fh, al, ah, ad, as, nh, ih, nl, nu, fd⟩ := h
+  obtain ⟨h1, ab, fa, dn, fh, al, ah, ad, as, nh, ih, nl, nu, fd, bd⟩ := h
   constructor <;> simp_all [closeIn_inClosed] <;> (try grind)
 
 theorem dinv_stopStep {cfg} {s s' : State} (h : stopStep cfg s = some s') (hd : DInv s) : DInv s' := by
@@ -500,7 +498,7 @@ theorem dinv_stopStep {cfg} {s s' : State} (h : stopStep cfg s = some s') (hd : 
     refine dinv_modify_at hd i (fun nd => { nd with stopping := true }) rfl (by intro nd; simp) ?_ ?_ ?_ ?_ ?_ rfl ?_ ?_ ?_ ?_ ?_
     · intro nd hi
       have hk := hd.flK i nd hph hi
-      obtain ⟨h1, ab, fa, dn, fh, al, ah, ad, as, nh, ih, nl, nu, fd⟩ := hd.nodes i nd hi
+      obtain ⟨h1, ab, fa, dn, fh, al, ah, ad, as, nh, ih, nl, nu, fd, bd⟩ := hd.nodes i nd hi
       constructor <;> simp_all <;> (cases hkk : nd.kind <;> simp_all [isAlert, isInflux, isUdf])
     · intro nd hi _; simp [abortedBy]
     · intro k hk; simp [hph, abortedBy]; omega
@@ -545,7 +543,7 @@ theorem dinv_stopStep {cfg} {s s' : State} (h : stopStep cfg s = some s') (hd : 
       · simp only [Option.some.injEq] at h; subst h
         refine dinv_modify_at hd i (fun nd => { nd with deliv := nd.deliv + nd.buf, buf := 0 }) rfl (by intro nd; simp) ?_ ?_ ?_ ?_ ?_ rfl ?_ ?_ ?_ ?_ ?_
         · intro nd hi
-          obtain ⟨h1, ab, fa, dn, fh, al, ah, ad, as, nh, ih, nl, nu, fd⟩ := hd.nodes i nd hi
+          obtain ⟨h1, ab, fa, dn, fh, al, ah, ad, as, nh, ih, nl, nu, fd, bd⟩ := hd.nodes i nd hi
           constructor <;> simp_all
         · intro nd hi hk
           have := hd.stopP i nd hi hk
@@ -564,7 +562,7 @@ theorem dinv_stopStep {cfg} {s s' : State} (h : stopStep cfg s = some s') (hd : 
       refine dinv_modify_at hd i (fun nd => { nd with stopping := true }) rfl (by intro nd; simp) ?_ ?_ ?_ ?_ ?_ rfl ?_ ?_ ?_ ?_ ?_
       · intro nd hi
         rw [hndi] at hi; simp at hi; subst hi
-        obtain ⟨h1, ab, fa, dn, fh, al, ah, ad, as, nh, ih, nl, nu, fd⟩ := hd.nodes i ndi hndi
+        obtain ⟨h1, ab, fa, dn, fh, al, ah, ad, as, nh, ih, nl, nu, fd, bd⟩ := hd.nodes i ndi hndi
         constructor <;> simp_all [isAlert, isInflux, isUdf]
       · intro nd hi _; simp [abortedBy]
       · intro k hk; simp [hph, abortedBy]; omega
@@ -584,6 +582,7 @@ theorem dinv_stopStep {cfg} {s s' : State} (h : stopStep cfg s = some s') (hd : 
     | alert H => simp only [hkind] at h; exact hother (by simp [hkind, isInflux]) (by simp [hkind, isUdf]) (by simpa using h.symm)
     | fail K => simp only [hkind] at h; exact hother (by simp [hkind, isInflux]) (by simp [hkind, isUdf]) (by simpa using h.symm)
     | loop => simp only [hkind] at h; exact hother (by simp [hkind, isInflux]) (by simp [hkind, isUdf]) (by simpa using h.symm)
+    | barrier d => simp only [hkind] at h; exact hother (by simp [hkind, isInflux]) (by simp [hkind, isUdf]) (by simpa using h.symm)
 
 /-- Global actions that leave nodes and phase alone. -/
 theorem dinv_glob {s s' : State} (hd : DInv s) (hn : s'.nodes = s.nodes) (hph : s'.ph = s.ph)
@@ -681,7 +680,7 @@ theorem dinv_step {cfg} {s s' : State} {a : Act} (h : step cfg s a = some s') (h
         cases k with
         | zero =>
           simp at hk; subst hk
-          obtain ⟨h1, ab, fa, dn, fh, al, ah, ad, as, nh, ih, nl, nu, fd⟩ := hd.nodes 0 nd h0
+          obtain ⟨h1, ab, fa, dn, fh, al, ah, ad, as, nh, ih, nl, nu, fd, bd⟩ := hd.nodes 0 nd h0
           constructor <;> simp_all <;> (try grind)
         | succ k => rw [hs (k+1) (by omega)] at hk; exact hd.nodes _ x hk
       · intro k x y hk hk1
